@@ -4003,34 +4003,38 @@ impl<'a> ZonedDifference<'a> {
 
         let (dt1, mut dt2) = (zdt1.datetime(), zdt2.datetime());
 
+        // When the difference has no calendar component, it is just the
+        // elapsed time between the two instants. In particular, when both
+        // datetimes are on the same civil date, we must not go through civil
+        // time at all, since the clock time of `zdt1` on that date can be
+        // ambiguous (e.g., inside a fold) and resolving it again might select
+        // a different instant than `zdt1`.
+        //
+        // Ref: https://tc39.es/proposal-temporal/#sec-temporal-differencezoneddatetime
+        let time_only = || {
+            zdt1.timestamp().until((Unit::Hour, zdt2.timestamp()))
+        };
+        if dt1.date() == dt2.date() {
+            return time_only();
+        }
+
         let mut day_correct: t::SpanDays = C(0).rinto();
         if -sign == dt1.time().until_nanoseconds(dt2.time()).signum() {
             day_correct += C(1);
         }
 
-        let mut mid = dt2
-            .date()
-            .checked_add(Span::new().days_ranged(day_correct * -sign))
-            .with_context(|| {
-                err!(
-                    "failed to add {days} days to date in {dt2}",
-                    days = day_correct * -sign,
-                )
-            })?
-            .to_datetime(dt1.time());
-        let mut zmid: Zoned = mid.to_zoned(tz.clone()).with_context(|| {
-            err!(
-                "failed to convert intermediate datetime {mid} \
-                     to zoned timestamp in time zone {tz}",
-                tz = tz.diagnostic_name(),
-            )
-        })?;
-        if t::sign(zdt2, &zmid) == -sign {
-            if sign == C(-1) {
-                panic!("this should be an error");
-            }
-            day_correct += C(1);
-            mid = dt2
+        // The intermediate datetime has the clock time of `zdt1` on the date
+        // of `zdt2`, possibly corrected by a number of days so that it does
+        // not overshoot `zdt2`. One correction (in addition to the one above)
+        // is expected when the intermediate datetime falls into a gap. More
+        // can only be needed when the order of civil datetimes differs from
+        // the order of their instants, i.e., when a time zone transition jumps
+        // back by a day (for example, `Pacific/Apia` in 1892 or
+        // `America/Juneau` in 1867). If that doesn't help either, then
+        // calendar units aren't meaningful and we use the elapsed time.
+        let mut extra_corrections = 0;
+        let (mid, zmid) = loop {
+            let mid = dt2
                 .date()
                 .checked_add(Span::new().days_ranged(day_correct * -sign))
                 .with_context(|| {
@@ -4040,22 +4044,39 @@ impl<'a> ZonedDifference<'a> {
                     )
                 })?
                 .to_datetime(dt1.time());
-            zmid = mid.to_zoned(tz.clone()).with_context(|| {
-                err!(
-                    "failed to convert intermediate datetime {mid} \
+            // N.B. When the intermediate datetime is the civil datetime of
+            // `zdt1`, then it must be `zdt1`. Resolving it again could select
+            // a different instant when it is ambiguous.
+            let zmid: Zoned = if mid == dt1 {
+                zdt1.clone()
+            } else {
+                mid.to_zoned(tz.clone()).with_context(|| {
+                    err!(
+                        "failed to convert intermediate datetime {mid} \
                          to zoned timestamp in time zone {tz}",
-                    tz = tz.diagnostic_name(),
-                )
-            })?;
-            if t::sign(zdt2, &zmid) == -sign {
-                panic!("this should be an error too");
+                        tz = tz.diagnostic_name(),
+                    )
+                })?
+            };
+            if t::sign(zdt2, &zmid) != -sign {
+                break (mid, zmid);
             }
-        }
+            extra_corrections += 1;
+            if extra_corrections > 2 {
+                return time_only();
+            }
+            day_correct += C(1);
+        };
         let remainder_nano = zdt2.timestamp().as_nanosecond_ranged()
             - zmid.timestamp().as_nanosecond_ranged();
         dt2 = mid;
 
         let date_span = dt1.date().until((largest, dt2.date()))?;
+        // Same as above: civil dates going in the opposite direction of the
+        // instants means calendar units can't be used.
+        if date_span.signum() == -sign.get() {
+            return time_only();
+        }
         Ok(Span::from_invariant_nanoseconds(
             Unit::Hour,
             remainder_nano.rinto(),
